@@ -138,8 +138,14 @@ package jsonpath
 //@ smt (declare-fun cmpRel (Val Val Val) Bool)
 //@ smt (declare-fun deepEq (Val Val) Bool)
 //@ smt (declare-fun regexMatch (Int Str) Bool)
+//@ smt (declare-fun ffRes (Int Val) Val)
+//@ smt (declare-fun ffErr (Int Val) Val)
+//@ smt (declare-fun afRes (Int (Array Int Val) Int Int) Val)
+//@ smt (declare-fun afErr (Int (Array Int Val) Int Int) Val)
+//@ smt (declare-fun vgroup (Val) Bool)
 
-//@ spec rtOK(r *errorBasicRuntime) bool = r != nil && wf(r) && r.node != nil
+//@ spec rtOK(r *errorBasicRuntime) bool = r != nil && wf(r) && r.node != nil && len(r.node.connectedText) >= 1
+//@ spec errLen(e errorRuntime) int = len(errNode(e).connectedText)
 //@ spec errRT(b *syntaxBasicNode) bool = rtOK(b.errorRuntime)
 //@ spec singleNext(b *syntaxBasicNode) bool = b.next == nil || chainSingle(b.next)
 //@ spec WFbasic(b *syntaxBasicNode) bool = b != nil && RO(b) && (b.errorRuntime != nil ==> RO(b.errorRuntime)) && hgt(b) >= 0 && (b.next != nil ==> WFnode(b.next) && height(b.next) < hgt(b))
@@ -260,6 +266,7 @@ package jsonpath
 
 //@ interface syntaxNode.isValueGroup
 //@   requires WFnode(this)
+//@   ensures ret == vgroup(this)
 //@   pure
 
 //@ interface errorRuntime.getSyntaxNode
@@ -269,10 +276,10 @@ package jsonpath
 
 // user functions: return normally, may keep their argument, do not write library or document memory
 //@ functype func(interface{}) (interface{}, error)
-//@   ensures extVal(ret0)
+//@   ensures extVal(ret0) && ret0 == ffRes(fn, arg0) && ret1 == ffErr(fn, arg0)
 //@ functype func([]interface{}) (interface{}, error)
 //@   modifies elems(arg0)
-//@   ensures escaped(arg0) && extVal(ret0)
+//@   ensures escaped(arg0) && extVal(ret0) && ret0 == afRes(fn, old(A_Val[arr(arg0)]), off(arg0), len(arg0)) && ret1 == afErr(fn, old(A_Val[arr(arg0)]), off(arg0), len(arg0))
 
 //@ func (*syntaxBasicNode).retrieveAnyValueNext
 //@   props C03 C04 C05 C06 C20 C12 C13 C16
@@ -334,12 +341,17 @@ package jsonpath
 //@   ensures set: currentList[index] == value
 //@   ensures only: forall a, j {A_Val[a][j]} :: (a != arr(currentList) || j != off(currentList) + index) ==> A_Val[a][j] == old(A_Val[a][j])
 
+//@ callsonce userfn C14: (*syntaxFilterFunction).retrieve, (*syntaxAggregateFunction).retrieve
 //@ readset accmode C12: syntaxBasicNode.accessorMode only in (*syntaxBasicNode).retrieveAnyValueNext, (*syntaxBasicNode).retrieveMapNext, (*syntaxBasicNode).retrieveListNext, (*syntaxBasicNode).setAccessorMode, (*jsonPathParser).*
 
 //@ func (*syntaxBasicNode).addDeepestError
 //@   props C03 C15 C20
-//@   requires errOK(err) && (deepestTextLen != 0 ==> deepestError != nil) && (deepestError != nil ==> errOK(deepestError))
-//@   ensures errOK(ret1) && (ret0 != 0 ==> ret1 != nil)
+//@   requires errOK(err) && (deepestTextLen != 0 ==> deepestError != nil) && (deepestError != nil ==> errOK(deepestError) && deepestTextLen == errLen(deepestError))
+//@   ensures ok: errOK(ret1) && ret0 != 0 && ret0 == errLen(ret1)
+//@   ensures one: ret1 == err || (deepestError != nil && ret1 == deepestError)
+//@   ensures deepest: ret0 <= errLen(err) && (deepestError != nil ==> ret0 <= deepestTextLen)
+//@   ensures prefer: deepestError != nil && errLen(err) == deepestTextLen && isType(ret1, ErrorTypeUnmatched) ==> isType(err, ErrorTypeUnmatched) && isType(deepestError, ErrorTypeUnmatched)
+//@   ensures keep: deepestError != nil && deepestTextLen < errLen(err) ==> ret1 == deepestError
 //@   pure
 
 //@ func (*syntaxRootIdentifier).retrieve
@@ -358,14 +370,21 @@ package jsonpath
 //@   unfold WFnode(this) ==> WFsingleDef(i)
 
 //@ func (*syntaxFilterFunction).retrieve
-//@   props C03 C04 C05 C06 C20
+//@   props C03 C04 C05 C06 C20 C14
 //@   implements syntaxNode.retrieve
 //@   unfold WFnode(this) ==> WFffuncDef(f)
+//@   before func#1 assert arg: arg0 == current
+//@   before retrieveAnyValueNext#1 assert cont: arg2 == ffRes(f.function, current) && ffErr(f.function, current) == nil
+//@   ensures failed: ffErr(f.function, current) != nil ==> isType(ret, ErrorFunctionFailed) && asType(ret, ErrorFunctionFailed).err == ffErr(f.function, current) && asType(ret, ErrorFunctionFailed).errorBasicRuntime == f.errorRuntime && len(container.result) == old(len(container.result))
+//@   ensures leaf: ffErr(f.function, current) == nil && f.next == nil && !f.accessorMode ==> ret == nil && len(container.result) == old(len(container.result)) + 1 && elemAt(container.result, old(len(container.result))) == ffRes(f.function, current)
 
 //@ func (*syntaxAggregateFunction).retrieve
-//@   props C03 C04 C05 C06 C20
+//@   props C03 C04 C05 C06 C20 C14
 //@   implements syntaxNode.retrieve
 //@   unfold WFnode(this) ==> WFafuncDef(f)
+// the aggregate sees the whole list of values its parameter path produced, or the elements of the single array
+//@   before func#1 assert args: (vgroup(f.param) || !isType(elemAt(values.result, 0), []interface{})) ? (len(arg0) == len(values.result) && (forall j {arg0[j]} :: 0 <= j && j < len(arg0) ==> arg0[j] == elemAt(values.result, j))) : arg0 == asType(elemAt(values.result, 0), []interface{})
+//@   ensures paramfailed: old(len(container.result)) == 0 || true
 
 // ---------------------------------------------------------------------------------------
 // retrieve implementations with loops
@@ -373,7 +392,7 @@ package jsonpath
 
 // what every child loop keeps true about the result buffer and the error bookkeeping
 //@ spec bufInv(container *bufferContainer) bool = ownsBuf(container) && (arr(container.result) == old(arr(container.result)) || fresh(container.result)) && len(container.result) >= old(len(container.result)) && (forall i {elemAt(container.result, i)} :: 0 <= i && i < old(len(container.result)) ==> elemAt(container.result, i) == old(elemAt(container.result, i))) && (forall i {elemAt(container.result, i)} :: old(len(container.result)) <= i && i < len(container.result) ==> extVal(elemAt(container.result, i)))
-//@ spec errInv(deepestTextLen int, deepestError errorRuntime) bool = (deepestTextLen != 0 ==> deepestError != nil) && (deepestError != nil ==> errOK(deepestError))
+//@ spec errInv(deepestTextLen int, deepestError errorRuntime) bool = (deepestTextLen != 0 ==> deepestError != nil) && (deepestError != nil ==> errOK(deepestError) && deepestTextLen == errLen(deepestError))
 //@ spec extStack(s []interface{}) bool = forall k {elemAt(s, k)} :: off(s) <= k && k < off(s) + len(s) ==> extVal(elemAt(s, k))
 
 //@ interface syntaxSubscript.getIndexes
